@@ -32,7 +32,7 @@ TECH = {
  "C13": ("differential testing against RFC 2104 over independent hashes and Python's hmac: every key length 0..2B+9 for 13 hashes, setkey histories",
          "Key-length sweep enumerated, messages and setkey sequences sampled."),
  "C14": ("metamorphic relation piecewise == one-shot plus independent digests: every cut-point list over <= 3/4 blocks enumerated, longer sampled; Nilsimsa every byte cut",
-         "16 hashes x all non-decreasing cut lists x 6 final lengths; bit counter after every piece; one open known finding (BLAKE2 empty final piece) excluded and counted."),
+         "16 hashes x all non-decreasing cut lists x 6 final lengths; bit counter after every piece; Nilsimsa over every byte cut."),
  "C15": ("differential testing against zlib and bitwise division; validity predicate for forged data: exhaustive <= 2-byte strings, every forge position for |data| <= 24/40, Hypothesis",
          "All 65 793 short strings; generic widths 8..64; backward tables; every admissible forge position on short data."),
  "C16": ("model-based testing against int lists mod 2^k: exhaustive vectors of dimension <= 3/4 over Z/2,Z/4,Z/8 (3.5e5 / 2.2e7 ordered pairs), index expressions, re-chunking, observe/mutate histories; atheris (thorough)",
